@@ -48,6 +48,7 @@ func init() {
 			ruleAmbiguitySearchSeesSplits(c, "R7")
 			ruleAmbiguitySearchDiscipline(c, "R8", "R9")
 			ruleAmbiguitySkipIsTextLength(c, "R10")
+			ruleRegexpSplitOnRuneBoundary(c, "R11")
 		},
 	})
 	register(&Spec{
